@@ -144,6 +144,15 @@ func (r *receiver) consumeSegment(s *segment, segSeq seqnum.Value, segLen seqnum
 	// 因为前面已经收到正确按序到达的数据，那么我们应该更新一下我们期望下次收到的序列号了
 	r.rcvNxt = segSeq.Add(segLen)
 
+	// A segment that is only partly inside the window is accepted whole, which
+	// can move rcvNxt past rcvAcc. Close the window in that case: otherwise the
+	// size of [rcvNxt, rcvAcc) wraps around and acceptable() takes segments that
+	// lie wholly beyond the advertised window until the next ACK is built.
+	// 整段接收跨越窗口右边界的段后，rcvNxt 可能超过 rcvAcc，此时窗口视为已关闭
+	if r.rcvAcc.LessThan(r.rcvNxt) {
+		r.rcvAcc = r.rcvNxt
+	}
+
 	// Trim SACK Blocks to remove any SACK information that covers
 	// sequence numbers that have been consumed.
 	// 修剪SACK块以删除任何涵盖已消耗序列号的SACK信息。
